@@ -699,7 +699,7 @@ func (c *verifC04Case) secondLevel(ctx string, victim int, db *channeldb.DB,
 	for _, s := range adv {
 		advs = append(advs, advSpend{s: s, tx: s.Tx, idx: 0})
 	}
-	if len(adv) >= 2 && st.ChanType.HasAnchors() && !st.ChanType.IsTaproot() && c.r.Chance(2, 3) {
+	if len(adv) >= 2 && st.ChanType.HasAnchors() && c.r.Chance(2, 3) {
 		byLock := map[uint32][]int{}
 		var locks []uint32
 		for i, s := range adv {
@@ -745,7 +745,25 @@ func (c *verifC04Case) secondLevel(ctx string, victim int, db *channeldb.DB,
 					w   wire.TxWitness
 					err error
 				)
-				if adv[m].Incoming {
+				if st.ChanType.IsTaproot() {
+					// taproot second-level witness: [peer sig, own
+					// sig, (preimage,) script, control block] - only
+					// the own signature (element 1) changes.
+					var sig input.Signature
+					sig, err = c.e.Signer(1-victim).SignOutputRaw(agg, &sd)
+					if err == nil {
+						w = append(wire.TxWitness{}, adv[m].Tx.TxIn[0].Witness...)
+						raw := sig.Serialize()
+						if sd.HashType != txscript.SigHashDefault {
+							raw = append(raw, byte(sd.HashType))
+						}
+						if len(w) < 4 {
+							err = fmt.Errorf("unexpected taproot second-level witness of %d elements", len(w))
+						} else {
+							w[1] = raw
+						}
+					}
+				} else if adv[m].Incoming {
 					w, err = input.ReceiverHtlcSpendRedeem(adv[m].SignDetails.PeerSig,
 						adv[m].SignDetails.SigHashType, adv[m].Preimage[:],
 						c.e.Signer(1-victim), &sd, agg)
@@ -775,6 +793,9 @@ func (c *verifC04Case) secondLevel(ctx string, victim int, db *channeldb.DB,
 				continue
 			}
 			c.vc.Count("second_level_aggregates", 1)
+			if st.ChanType.IsTaproot() {
+				c.vc.Count("second_level_aggregates_taproot", 1)
+			}
 			c.vc.Count("second_level_aggregated_htlcs", int64(len(members)))
 			for i, m := range members {
 				advs[m].tx, advs[m].idx = agg, uint32(i)
